@@ -24,12 +24,28 @@ NearDays(rel, D) ==
               Unb(d, hrs) == LET sg == DurSign(d) IN [d EXCEPT !.d = Sub(d.d, FromInt(sg * (hrs \div 24))), !.h = FromInt(sg * hrs)]
               base == {DayDur(-1), DayDur(0), DayDur(1)}
           IN {d \in base \cup {Unb(d, 24) : d \in base} \cup {Unb(d, 48) : d \in base} : SignUniform(d)}
+\* PlainDate.until / since with rounding options between the reference date and dates some days away (from one anchor duration only:
+\* the call does not involve the duration); `bare`: the units are left out of the call (defaults: day / day)
+DiffOffsets == {-400, -59, -45, -10, -1, 0, 1, 10, 45, 59, 400}
+AnchorDur == CHOOSE d \in Durs : TRUE
+DateOpts == {o \in Opts : o.sm \in DateUnits /\ o.lg \in DateUnits}
+DateDiffAct(k, o, since, bare) ==
+  /\ cur.dur = AnchorDur /\ (bare => o.lg = "day" /\ o.sm = "day")
+  /\ LET b == CivilFromDays(DFC(cur.rel) + k)
+     IN last' = [op |-> "datediff", rel |-> cur.rel, dur |-> cur.dur, b |-> b, o |-> o, since |-> since, bare |-> bare,
+                 out |-> DateDiffRounded(cur.rel, b, o.lg, o.sm, o.inc, o.mode, since)]
+  /\ UNCHANGED cur
 Next == /\ (OneStep => last = None)
         /\ \/ \E o \in Opts : UnitLe(o.sm, o.lg) /\ RoundAct(o)
+           \/ \E k \in DiffOffsets, o \in DateOpts, since \in BOOLEAN, bare \in BOOLEAN : UnitLe(o.sm, o.lg) /\ DateDiffAct(k, o, since, bare)
            \/ \E u \in TotalUnits : TotalAct(u)
            \/ \E b \in Durs \cup NearDays(cur.rel, cur.dur) : CmpAct(b)
 Spec == Init /\ [][Next]_vars
 
+\* since = the negated until under the negated mode; and with increment 1 and smallest unit day the plain difference
+DateDiffLaw == last.op = "datediff" =>
+  /\ (last.since => last.out = NegOut(DateDiffRounded(last.rel, last.b, last.o.lg, last.o.sm, last.o.inc, NegateMode(last.o.mode), FALSE)))
+  /\ (last.out.kind = "ok" => ValidDur(last.out.val) /\ IsZero(last.out.val.h) /\ IsZero(last.out.val.ns))
 IsRound == last.op = "round" /\ last.out.kind = "ok"
 R == last.out.val
 O == last.o
